@@ -111,6 +111,23 @@ func (c *Ctx) execCall(st *State, fr *Frame, instr ssa.Instruction, call *ssa.Ca
 		c.callClosure(st, fr, instr, fv.Clo.fn, fv.Clo.bindings, args, k)
 		return
 	}
+	// functype contract attached to a function-typed struct field: "functype Type.field"
+	if ld, ok := call.Value.(*ssa.UnOp); ok {
+		if fa, ok := ld.X.(*ssa.FieldAddr); ok {
+			if pt, ok := fa.X.Type().Underlying().(*types.Pointer); ok {
+				if named, ok := pt.Elem().(*types.Named); ok {
+					if stt, ok := named.Underlying().(*types.Struct); ok {
+						key := types.TypeString(named, nil) + "." + stt.Field(fa.Field).Name()
+						if ct := c.eng.db.FuncTypes[key]; ct != nil {
+							sig := call.Value.Type().Underlying().(*types.Signature)
+							c.applyContract(st, fr, instr, ct, key, sig, nil, args, &fv, k)
+							return
+						}
+					}
+				}
+			}
+		}
+	}
 	// functype contract by named type
 	if named, ok := call.Value.Type().(*types.Named); ok {
 		key := types.TypeString(named, nil)
